@@ -19,11 +19,19 @@
   * `sum_collapse_eq` (SumCollapse: W1·(W2·x) = (W1·W2)·x), `tucker_eq` / `tucker_eq_partial`
     (arity-2 Tucker einsum = sum layer on the Kronecker product; arity > 2 follows by iterating
     the same re-indexing), `logsoftmax_eq` (log ∘ softmax = log_softmax).
-  Proofs: `CirkitModel.Proofs.Fold`.
+  * `buildFolded_valid`, `buildFolded_sound`: the model of `build_folded_graph` /
+    `group_foldable_modules` (`buildFolded`, `groupFrontier`), run on ANY layer-wise topological
+    ordering (`Layered`: the frontiers permute the modules, every input lies in an earlier
+    frontier, the fold key determines the arity, outputs are modules), emits a certificate that
+    `FoldCert.valid` accepts — so folding with the modelled algorithm is sound unconditionally,
+    and `valid` on the REAL certificate (checked on every run) is the only per-run obligation.
+  Proofs: `CirkitModel.Proofs.Fold`, `CirkitModel.Proofs.FoldBuild`.
 -/
 import Mathlib.Analysis.SpecialFunctions.Log.Basic
 import CirkitModel.Proofs.Index
 import CirkitModel.Proofs.Fold
+import CirkitModel.Proofs.FoldBuild
+import Mathlib.Tactic.IntervalCases
 import CirkitModel.Proofs.TemplatesFull
 
 open Finset
@@ -64,6 +72,49 @@ theorem fold_sound_slices {α : Type} (g : UGraph) (c : FoldCert) (sem : ℕ →
     ((evalFolded c sem dflt).getD gi []).getD f dflt
       = (evalUnfolded g sem dflt).getD ((c.groups.getD gi []).getD f 0) dflt :=
   fold_slices g c sem dflt htopo hv gi hgi f hf
+
+/-- The model of `build_folded_graph` always emits a valid certificate: for every graph and every
+    layer-wise topological ordering of it (no bound on the number of modules, frontiers, keys or
+    arities), `FoldCert.valid` accepts `buildFolded g frontiers`. -/
+theorem buildFolded_valid (g : UGraph) (frontiers : List (List ℕ)) (h : Layered g frontiers) :
+    (buildFolded g frontiers).valid g = true :=
+  buildFolded_valid' g frontiers h
+
+/-- Hence folding with the modelled algorithm preserves the outputs, for every module semantics. -/
+theorem buildFolded_sound {α : Type} (g : UGraph) (frontiers : List (List ℕ))
+    (sem : ℕ → List α → α) (dflt : α) (htopo : g.Topo) (h : Layered g frontiers) :
+    gatherOutputs (buildFolded g frontiers) (evalFolded (buildFolded g frontiers) sem dflt) dflt
+      = g.outputs.map (fun o => (evalUnfolded g sem dflt).getD o dflt) :=
+  fold_sound g _ sem dflt htopo (buildFolded_valid g frontiers h)
+
+/-- Non-vacuity: the graph of the example above with its layer-wise ordering is `Layered`, and the
+    model builds exactly the certificate used there. -/
+example :
+    let g : UGraph :=
+      { n := 4
+        ins := fun m => if m = 2 then [0, 1] else if m = 3 then [2] else []
+        key := fun m => if m ≤ 1 then 0 else m
+        outputs := [3] }
+    Layered g [[0, 1], [2], [3]] ∧
+      (buildFolded g [[0, 1], [2], [3]]).groups = [[0, 1], [2], [3]] ∧
+      (buildFolded g [[0, 1], [2], [3]]).inIdx = [[[], []], [[(0, 0), (0, 1)]], [[(1, 0)]]] ∧
+      (buildFolded g [[0, 1], [2], [3]]).outIdx = [(2, 0)] := by
+  refine ⟨⟨by decide, ?_, ?_, by simp⟩, by decide, by decide, by decide⟩
+  · intro k hk m hm i hi
+    simp only [List.length_cons, List.length_nil] at hk
+    interval_cases k
+    · simp only [List.getD_cons_zero, List.mem_cons, List.not_mem_nil, or_false] at hm
+      rcases hm with rfl | rfl <;> simp at hi
+    · simp only [List.getD_cons_succ, List.getD_cons_zero, List.mem_singleton] at hm
+      subst hm
+      simpa using hi
+    · simp only [List.getD_cons_succ, List.getD_cons_zero, List.mem_singleton] at hm
+      subst hm
+      simp at hi
+      simp [hi]
+  · intro m m' hkey
+    dsimp only at hkey ⊢
+    split_ifs at hkey ⊢ <;> first | rfl | (exfalso; omega)
 
 /-- `build_address_book_stacked_entry` + `LayerAddressBook.lookup`: the gather returns, for each
     fold `f` and input `h`, the slice named by `inIdx[f][h] = (module, slice)`. -/
